@@ -49,7 +49,7 @@ Proof.
     unfold np_set in H. destruct (np_put pid v (w_np w)) as [n'|]; [|discriminate].
     destruct (np_valid n'); inversion H. reflexivity.
   - destruct ((hash =? 9) && negb (get_ix 4 (w_reg w) =? 0)); inversion H. reflexivity.
-  - unfold whitelist in H. destruct (mem perm _); inversion H. reflexivity.
+  - unfold whitelist in H. destruct (mem perm (a_wl _)); [discriminate|]. destruct (mem perm (a_bl _)); inversion H. reflexivity.
   - unfold unwhitelist in H. destruct (get_actor who (w_actors w)) as [a|]; [|discriminate].
     destruct (mem perm (a_wl a)); inversion H. reflexivity.
   - destruct Hg as [->|Hg].
@@ -72,7 +72,7 @@ Qed.
 
 (* the durations handler in its earlier `return nil` shape (error swallowed): success without the complete effect *)
 Definition w_demo : world :=
-  mkW (mkNP 100 1000000 330000000000000000 300 10 1 1) [(0, mkA true true [10; 11; 31; 32])] [0; 0; 0; 0; 0; 0; 0; 0] [0; 0; 0; 0] None.
+  mkW (mkNP 100 1000000 330000000000000000 300 10 1 1) [(0, mkA true true [10; 11; 31; 32] [] [])] [0; 0; 0; 0; 0; 0; 0; 0] [0; 0; 0; 0] None [].
 
 Lemma durations_all_or_nothing_refuted :
   exists l w w', c_handler false (CDurations l) w = Ok w' /\ w' <> spec_effect (CDurations l) w.
@@ -131,7 +131,8 @@ Lemma chk_may_vote_matches : forall w who ct,
   may_vote w who ct = w_is_active w who && w_can w who (vote_perm ct) ct.
 Proof.
   intros w who ct. unfold may_vote, w_can, pool_allowed, pool_of, dyn_owners. f_equal.
-  destruct (vote_perm ct =? 0); [|reflexivity].
+  destruct (vote_perm ct =? 0).
+  2: { unfold w_has_perm. destruct (get_actor who (w_actors w)); reflexivity. }
   destruct ct as [| | | | |name owners q period enact]; try reflexivity.
   destruct name as [|[| |]|]; try reflexivity. destruct (w_pool w) as [p|]; [apply mem_uniq|reflexivity].
 Qed.
@@ -143,11 +144,28 @@ Proof.
   destruct (g x); cbn [List.length]; rewrite IH; reflexivity.
 Qed.
 
+(* the holders according to the checker's ghost rules are what the model's enumeration oracle counts;
+   the ELIGIBLE voters (holders that are not blacklisted) can only be fewer *)
 Lemma chk_electorate_matches : forall w ct, (vote_perm ct =? 0) = false ->
-  eligible w ct = w_nvoters w ct /\ forall f, veto_capable w ct = w_nveto f w ct.
+  holders_count w ct = w_nvoters w ct /\ (forall f, holders_veto w ct = w_nveto f w ct).
 Proof.
-  intros w ct H. unfold eligible, veto_capable, w_nvoters, w_nveto, w_voters. rewrite H. split; [reflexivity|]. intros f. rewrite andb_false_r.
+  intros w ct H. unfold holders_count, holders_ids, holders_veto, w_nvoters, w_nveto, w_voters. rewrite H.
+  split; [rewrite map_length; reflexivity|]. intros f. rewrite andb_false_r.
   rewrite filter_filter_len. reflexivity.
+Qed.
+
+Lemma filter_and_le : forall {X} (f g : X -> bool) l,
+  (List.length (filter (fun x => f x && g x) l) <= List.length (filter f l))%nat.
+Proof.
+  induction l as [|x r IH]; [cbn; lia|]. cbn [filter]. destruct (f x); cbn [andb]; [|exact IH].
+  destruct (g x); cbn [List.length]; lia.
+Qed.
+
+Lemma chk_eligible_le_holders : forall w ct, (vote_perm ct =? 0) = false -> eligible w ct <= holders_count w ct.
+Proof.
+  intros w ct H. unfold eligible, holders_count, holders_ids, g_eligible. rewrite H, map_length.
+  pose proof (filter_and_le (fun ka : Z * actor => g_holder (w_roles w) (vote_perm ct) (snd ka))
+                            (fun ka => negb (g_blacklisted (w_roles w) (vote_perm ct) (snd ka))) (w_actors w)). lia.
 Qed.
 
 (* sorting the votes (what the harness reports and the checker tracks) keeps every count *)
@@ -234,22 +252,26 @@ Lemma chk_passed_sound : forall w id ct vend eend minv res fin nap vs,
   let tl := tally_of vs (w_nveto (f_dyn_veto tree_flags) w ct) in
   is_quorum (w_quorum w ct) (t_total tl) (w_nvoters w ct) = Ok true ->
   final_result world ccontent cext (c_params tree_flags decide_q) true tl = Enactment ->
+  0 <= w_quorum w ct ->
+  veto_capable w ct = holders_veto w ct ->      (* no veto-capable holder is blacklisted *)
   pass_clauses w (mkR id ct vend eend minv res fin nap (sort_votes vs)) = [].
 Proof.
-  intros w id ct vend eend minv res fin nap vs Hd Hnd tl Hq Hres.
+  intros w id ct vend eend minv res fin nap vs Hd Hnd tl Hq Hres Hq0 Hnb.
   apply (final_result_enactment world ccontent cext (c_params tree_flags decide_q)) in Hres;
     [|intros t; apply decide_q_range].
   destruct Hres as [_ Hpass]. cbn [decide c_params] in Hpass.
   apply decide_q_passed_iff in Hpass; [|apply tally_of_wf]. destruct Hpass as [Hmaj Hveto].
   apply is_quorum_exact in Hq. destruct Hq as [_ [_ Hq]]. symmetry in Hq. apply Z.leb_le in Hq.
   destruct (chk_electorate_matches w ct Hd) as [He Hv].
-  unfold pass_clauses. cbn [r_ct r_votes]. rewrite Hd, chk_quorum_matches, He, (Hv (f_dyn_veto tree_flags)).
+  pose proof (chk_eligible_le_holders w ct Hd) as Hle.
+  assert (Hel0 : 0 <= eligible w ct) by (unfold eligible; rewrite Hd; lia).
+  unfold pass_clauses. cbn [r_ct r_votes]. rewrite Hd, chk_quorum_matches, Hnb, (Hv (f_dyn_veto tree_flags)).
   assert (Hlen : Z.of_nat (List.length (sort_votes vs)) = t_total tl).
   { rewrite <- (filter_true_len (sort_votes vs)), sort_votes_count, filter_true_len by assumption. reflexivity. }
   assert (Hyes : nopt 1 (sort_votes vs) = t_yes tl) by (unfold nopt; rewrite sort_votes_count by assumption; reflexivity).
   assert (Hvt : nopt 4 (sort_votes vs) = t_veto tl) by (unfold nopt; rewrite sort_votes_count by assumption; reflexivity).
   rewrite Hlen, Hyes, Hvt. cbn [t_vcap tl tally_of] in Hveto.
-  replace (w_quorum w ct * w_nvoters w ct <=? t_total tl * PREC) with true by (symmetry; apply Z.leb_le; lia).
+  replace (w_quorum w ct * eligible w ct <=? t_total tl * PREC) with true by (symmetry; apply Z.leb_le; nia).
   replace (t_total tl <? 2 * t_yes tl) with true by (symmetry; apply Z.ltb_lt; lia).
   replace ((w_nveto (f_dyn_veto tree_flags) w ct =? 0) || (2 * t_veto tl <? w_nveto (f_dyn_veto tree_flags) w ct)) with true; [reflexivity|].
   symmetry. apply orb_true_iff. destruct Hveto as [E|E]; [left; apply Z.eqb_eq; exact E|right; apply Z.ltb_lt; exact E].
@@ -262,18 +284,20 @@ Definition cP : params world ccontent cext := c_params tree_flags decide_q.
 Lemma chk_sound_finalisation : forall w0 ops id tl nv q mine cf af l1 l2 p,
   log (run world ccontent cext cP ops (init w0)) = l1 ++ EvFinal id Enactment tl nv q mine cf af :: l2 ->
   submit_of world ccontent id l2 = Some p -> (vote_perm (p_content p) =? 0) = false ->
+  0 <= n_quorum (w_np af) -> veto_capable af (p_content p) = holders_veto af (p_content p) ->
   (p_vend p <=? now cf) && (p_minv p <=? height cf) = true                               (* clause early_final *)
   /\ pass_clauses af (mkR id (p_content p) (p_vend p) (p_eend p) (p_minv p) 4 None 0
                           (sort_votes (votes_of world ccontent id l2))) = [].            (* clauses passed_* *)
 Proof.
-  intros w0 ops id tl nv q mine cf af l1 l2 p Hlog Hs Hd.
+  intros w0 ops id tl nv q mine cf af l1 l2 p Hlog Hs Hd Hq0 Hnb.
   pose proof (inv_log _ _ _ _ _ (history_ok world ccontent cext cP ops w0)) as Hok. rewrite Hlog in Hok.
   destruct (log_ok_at _ _ _ _ _ _ _ Hok) as [He _]. cbn [ev_ok] in He.
   destruct He as [p' [Hs' [_ [_ [Hv [Hm [Htl [Hnv [Hq [[qb [Hqb Hres]] _]]]]]]]]]].
   rewrite Hs in Hs'. inversion Hs'; subst p'. split; [apply andb_true_iff; split; apply Z.leb_le; assumption|].
   assert (Hqb' : qb = true) by (unfold final_result in Hres; destruct qb; [reflexivity|discriminate]).
   subst qb. apply quorum_checked_true in Hqb. subst nv q. subst tl. apply chk_passed_sound; auto.
-  apply votes_of_nodup.
+  - apply votes_of_nodup.
+  - unfold w_quorum. rewrite Hd. exact Hq0.
 Qed.
 
 Lemma chk_sound_application : forall w0 ops id ok c a1 a2 l1 l2,
